@@ -1,7 +1,7 @@
 /-
   C14 helper lemmas: the built-in Show instances (Int, Float, String, Array, Tuple, List, Table, Tree, Range, Slice, Box,
-  NULL, objects without a Show instance) never take the out-of-bounds outcome and are pure — for arguments that are not the
-  destination itself and do not reach a Type object (`plainD`).
+  NULL, objects without a Show instance, Type objects) never take the out-of-bounds outcome and are pure — for arguments that
+  are not the destination itself and do not reach it (`plainD`).
 -/
 import CelloProofs.Lemmas.FmtRefine
 import CelloProofs.Lemmas.FmtParse
@@ -38,7 +38,7 @@ def ShowCfg.formats (sc : ShowCfg) : List Str :=
    sc.tupOpen, sc.tupSep, sc.tupClose, sc.lstOpen, sc.lstSep, sc.lstClose, ['%', '$'],
    sc.tblOpen, sc.tblPair, sc.tblSep, sc.tblClose, sc.treOpen, sc.trePair, sc.treSep, sc.treClose,
    sc.rngOpen, sc.rngItem, sc.rngSep, sc.rngClose, sc.slcOpen, sc.slcSep, sc.slcClose,
-   sc.boxFmt, sc.nullFmt, sc.defaultFmt] ++ sc.strEsc.map (·.2)
+   sc.boxFmt, sc.nullFmt, sc.defaultFmt, ['%', 's']] ++ sc.strEsc.map (·.2)
 
 variable (sc : ShowCfg)
 
@@ -168,7 +168,7 @@ theorem plainD_mono : ∀ (d : Nat) (a : Obj), plainD (d + 1) a = true → plain
     | tree ps => exact hp ps h
     | box x => exact ih x h
     | sink => simp [plainD] at h
-    | type n => simp [plainD] at h
+    | type n => rfl
     | int v => rfl
     | flt v => rfl
     | str s => rfl
@@ -187,6 +187,8 @@ structure ShowFacts (cfg : Cfg) (sc : ShowCfg) : Prop where
   hfp : firing cfg 'p' = [.obj]
   wf : ∀ f ∈ sc.formats, (parseFmt cfg.conv f).isSome = true
   dflt : ∃ l1 l2 l3, parseFmt cfg.conv sc.defaultFmt = some [.lit l1, .spec [] 's', .lit l2, .spec [] 'p', .lit l3]
+  /-- `Type_Show` is `return print_to(output, pos, "%s", self);` (fix 0046a69), not the OLD form that returned a length -/
+  typeNow : sc.typeOff = false
 
 theorem showD_not_oob (hg : prim.Guarded) (F : ShowFacts cfg sc) :
     ∀ (d : Nat) (a : Obj), plainD d a = true → ∀ (o : Out), (showD cfg prim sc d a o).2 ≠ .oob := by
@@ -278,7 +280,9 @@ theorem showD_not_oob (hg : prim.Guarded) (F : ShowFacts cfg sc) :
       exact andThen_not_oob (fun o => call_not_oob prim hg _ _ _) (fun o => andThen_not_oob (fun o => call_not_oob prim hg _ _ _)
         (fun o => andThen_not_oob (fun o => call_not_oob prim hg _ _ _) (fun o => andThen_not_oob (fun o => call_not_oob prim hg _ _ _)
           (fun o => call_not_oob prim hg _ _ _) o) o) o) o
-    | type n => simp [plainD] at hpl
+    | type n =>
+      simp only [showD, F.typeNow, Bool.false_eq_true, if_false]
+      exact P ['%', 's'] (by simp [ShowCfg.formats]) _ (one _ hself) o
     | sink => simp [plainD] at hpl
 
 theorem showD_pure (hg : prim.Guarded) (F : ShowFacts cfg sc) :
@@ -351,7 +355,13 @@ theorem showD_pure (hg : prim.Guarded) (F : ShowFacts cfg sc) :
       rw [this]
       exact pure_andThen prim (call_pure prim hg _ _) (pure_andThen prim (call_pure prim hg _ _)
         (pure_andThen prim (call_pure prim hg _ _) (pure_andThen prim (call_pure prim hg _ _) (call_pure prim hg _ _))))
-    | type n => simp [plainD] at hpl
+    | type n =>
+      have : showD cfg prim sc (d + 1) (.type n) =
+          fun o => (printToWith cfg prim (fun x o => showD cfg prim sc d x o) ['%', 's'] [.type n] o).pair := by
+        funext o
+        simp only [showD, F.typeNow, Bool.false_eq_true, if_false]
+      rw [this]
+      exact P ['%', 's'] _ (one _ hself)
     | sink => simp [plainD] at hpl
 
 end Cello.Fmt
